@@ -520,5 +520,9 @@ def check_C13(chk):
     import rules_io as RIO_
     chk.borrow(lambda: (RN_.c04a(chk), RN_.c04c(chk), RN_.c04d(chk)), "C13.f", 10)
     chk.borrow(lambda: RIO_.c07g(chk), "C13.g", 2)
+    # .. `piping the spectrum losslessly`: the writer prints the stored values with the precision asked for (C07.c/f, C17.f) and the npy
+    # decoders / writer are exact (C15.a/d)
+    import rules_panic as RP13_
+    chk.borrow(lambda: (RIO_.c07c(chk), RIO_.c07f(chk), RP13_.precision_bound(chk, "C17.f"), RIO_.c15a(chk), RIO_.c15d(chk)), "C13.h", 30)
     for r, n in (("C13.a", 12), ("C13.b", 9), ("C13.c", 2), ("C13.d", 2), ("C13.e", 2)):
         chk.floor(r, n)
